@@ -31,6 +31,8 @@ def build_target(tid: str):
     if kind == 'graph':
         shape, idx, mode, share = rest.split(';')
         return lambda: modgraph.build(shape, tuple(int(x) for x in idx.split(',')), mode, share == '1')[0]
+    if kind == 'nested':
+        return lambda: modgraph.nested_module(int(rest))
     if kind == 'expr':
         d = c02.tup(json.loads(rest))
 
@@ -162,6 +164,10 @@ def targets(thorough):
     ex = c02.successors(prim[:3], prim[:3], 4, 2)
     for d in ex[::max(1, len(ex) // (10 if thorough else 4))]:
         T.append('expr:' + json.dumps(d))
+    # plugs given to dynamic_inst as partially applied / re-ordered notation; theories whose axioms contain one another
+    for d in (('dinst', ('prop1',), ((0, 14), (1, 4))), ('dinst', ('prop1',), ((1, 14),)), ('dinst', ('prop2',), ((2, 14), (0, 8)))):
+        T.append('expr:' + json.dumps(d))
+    T += [f'nested:{k}' for k in range(4)]
     T += ['mm:impreflex-compressed-goal.mm', 'mm:transfer-task-specific.mm', 'mmvars:two', 'mmvars:three', 'mmvars:mixed']
     _, _, thms = mmgen.derivations(mmgen.Features(), 2, 4)
     two_var = [i for i, (t, _, h) in enumerate(thms) if len(__import__('mc.mmref', fromlist=['x']).term_vars(t)) >= 2]
